@@ -6,7 +6,7 @@
    repaired by the fix: commits 50fc060 and 1070095). *)
 From Coq Require Import ZArith List Bool Lia.
 From Mistletoe Require Import Base.Sx Base.PyStr Base.PyText Gen.GenTables Gen.GenConfig Model.Tree Model.CoreTokens Model.Block Model.Build
-     Model.MarkdownRenderer Model.Parser Proofs.PlainProse Proofs.Prose Proofs.ProseLines Proofs.ListLaw Proofs.FenceLaw Spec.Fragment Proofs.InertProse Proofs.RefSentence Proofs.LinkSentence Proofs.FragmentP Proofs.FragmentDoc Proofs.FragmentHtml.
+     Model.MarkdownRenderer Model.Parser Proofs.PlainProse Proofs.Prose Proofs.ProseLines Proofs.ListLaw Proofs.FenceLaw Spec.Fragment Proofs.InertProse Proofs.RefSentence Proofs.LinkSentence Proofs.EmphPhrases Proofs.LinkPhrases Proofs.MixPhrases Proofs.FragmentP Proofs.FragmentDoc Proofs.FragmentHtml.
 Import ListNotations.
 Local Open Scope Z_scope.
 
@@ -199,6 +199,49 @@ Section RT.
       destruct (nonempty _) eqn:En; [reflexivity|]. exfalso. unfold nonempty in En. cbn in En. discriminate.
   Qed.
 
+  (* fragments without a newline are written on the current line *)
+  Lemma plain_from_flat : forall frs cur, Forall (fun f => mem 10 (ftext f) = false) frs ->
+    plain_from cur frs = (if nonempty (cur ++ concat (map ftext frs)) then [cur ++ concat (map ftext frs)] else []).
+  Proof.
+    induction frs as [|f r IH]; intros cur H; [cbn [plain_from map concat]; rewrite app_nil_r; reflexivity|].
+    inversion H as [|? ? Hf Hr]; subst. cbn [plain_from map concat]. rewrite Hf. rewrite (IH _ Hr). rewrite <- app_assoc. reflexivity.
+  Qed.
+
+  Lemma seg_frags : forall gs, Forall mseg_ok gs ->
+    Forall (fun f => mem 10 (ftext f) = false) (flat_map frags (mix_toks gs)) /\ concat (map ftext (flat_map frags (mix_toks gs))) = mbody gs.
+  Proof.
+    induction gs as [|[ch k w t|w d t] r IH]; intros Hok; [split; [constructor|reflexivity]|apply Forall_cons_iff in Hok as [Hp Hr]; destruct (IH Hr) as [HF E]..].
+    - destruct Hp as (Hch & Hk & Hw & _ & _ & _ & Ht & _).
+      assert (R10 : mem 10 (repeat ch (S k)) = false) by (apply mem_repeat; destruct Hch as [->| ->]; discriminate).
+      assert (K2 : k = 0%nat \/ k = 1%nat) by lia.
+      cbn [mix_toks flat_map]. fold (mix_toks r). rewrite flat_map_app. split.
+      + apply Forall_app. split; [|exact HF].
+        destruct K2 as [->| ->]; [change (Z.of_nat 1 =? 2) with false|change (Z.of_nat 2 =? 2) with true]; cbv iota; cbn [flat_map frags app ftext F Fw]; repeat constructor; cbn [ftext F Fw];
+          try (apply (plain_no 10 _ eq_refl); assumption); try exact R10; destruct Hch as [->| ->]; reflexivity.
+      + rewrite map_app, concat_app, E. cbn [mbody mtext].
+        destruct K2 as [->| ->]; [change (Z.of_nat 1 =? 2) with false|change (Z.of_nat 2 =? 2) with true]; cbv iota; cbn [flat_map frags app map concat ftext F Fw repeat]; rewrite ?app_nil_r, <- ?app_assoc; reflexivity.
+    - destruct Hp as [(Hw & _ & Hd & _ & Ht) _].
+      cbn [mix_toks flat_map]. fold (mix_toks r). rewrite flat_map_app.
+      assert (Ef : flat_map frags (LinkSentence.ilink_of w d :: EmphSentence.raw_if t) = [F [91]; Fw w; F [93]; F [40]; F d; F [41]] ++ match t with [] => [] | _ => [Fw t] end)
+        by (destruct t; reflexivity).
+      rewrite Ef. split.
+      + apply Forall_app. split; [|exact HF]. apply Forall_app. split.
+        * repeat constructor; cbn [ftext F Fw]; try reflexivity; [apply (plain_no 10 _ eq_refl Hw)|apply (LinkSentence.dest_no 10 d eq_refl Hd)].
+        * destruct t; [constructor|]. repeat constructor. cbn [ftext Fw]. apply (plain_no 10 _ eq_refl Ht).
+      + rewrite map_app, concat_app, E. cbn [mbody mtext]. rewrite map_app, concat_app. cbn [map concat ftext F Fw app].
+        destruct t; cbn [map concat ftext Fw app]; rewrite ?app_nil_r; repeat (rewrite <- ?app_assoc; cbn [app]); reflexivity.
+  Qed.
+
+  Lemma rt_sent c0 t0 gs : wf_b (FSent c0 t0 gs) = true -> RT (FSent c0 t0 gs).
+  Proof.
+    intros Hw. destruct (sent_wf _ _ _ Hw) as (Hok & _). destruct (sent_parts _ _ _ Hok) as (Hpre & Hgs).
+    destruct (seg_frags gs Hgs) as [Fs Es].
+    unfold RT, md_lines. cbn [tok_of block_lines spell map bare repeat app]. unfold span_to_lines. cbn [fragments_to_lines].
+    cbn [flat_map frags]. rewrite plain_from_flat.
+    - cbn [app map concat ftext Fw]. rewrite Es. cbn [nonempty]. reflexivity.
+    - constructor; [cbn [ftext Fw]; apply (plain_no 10 _ eq_refl Hpre)|exact Fs].
+  Qed.
+
   Lemma rt_fence ch n content : wf_b (FFence ch n content) = true -> RT (FFence ch n content).
   Proof.
     intros Hw. destruct (fence_wf ch n content Hw) as ((Hch & Hn) & Hok & _).
@@ -248,9 +291,9 @@ Section RT.
   Proof.
     induction f as [|f IH].
     - intros t Hd Hw.
-      destruct t as [c body more|ch n content|ts|mk pad ts|mk pad ts bl next|lv hc hb|rc rn|e0 epre ech edbl ew epost|l0 lpre lw ldest lpost]; [apply rt_para; exact Hw|apply rt_fence; assumption|cbn [depth] in Hd; lia|cbn [depth] in Hd; lia|cbn [depth] in Hd; lia|apply rt_head; exact Hw|apply rt_rule|apply rt_em; exact Hw|apply rt_link; exact Hw].
-    - intros t. induction t as [c body more|ch n content|ts|mk pad ts|mk pad ts bl next IHn|lv hc hb|rc rn|e0 epre ech edbl ew epost|l0 lpre lw ldest lpost]; intros Hd Hw;
-        [apply rt_para; exact Hw|apply rt_fence; assumption| | | |apply rt_head; exact Hw|apply rt_rule|apply rt_em; exact Hw|apply rt_link; exact Hw].
+      destruct t as [c body more|ch n content|ts|mk pad ts|mk pad ts bl next|lv hc hb|rc rn|e0 epre ech edbl ew epost|l0 lpre lw ldest lpost|s0 st0' sgs]; [apply rt_para; exact Hw|apply rt_fence; assumption|cbn [depth] in Hd; lia|cbn [depth] in Hd; lia|cbn [depth] in Hd; lia|apply rt_head; exact Hw|apply rt_rule|apply rt_em; exact Hw|apply rt_link; exact Hw|apply rt_sent; exact Hw].
+    - intros t. induction t as [c body more|ch n content|ts|mk pad ts|mk pad ts bl next IHn|lv hc hb|rc rn|e0 epre ech edbl ew epost|l0 lpre lw ldest lpost|s0 st0' sgs]; intros Hd Hw;
+        [apply rt_para; exact Hw|apply rt_fence; assumption| | | |apply rt_head; exact Hw|apply rt_rule|apply rt_em; exact Hw|apply rt_link; exact Hw|apply rt_sent; exact Hw].
       + (* quote *)
         cbn [wf_b] in Hw. repeat rewrite andb_true_iff in Hw. destruct Hw as [[Hs Hall] Hg].
         assert (Hch : Forall RT ts).
